@@ -139,3 +139,7 @@ package specs
 //@ pure
 
 // ---- hashing ------------------------------------------------------------------------------------------
+
+// ---- unicode -------------------------------------------------------------------------------------------
+//@ func unicode/utf8.Valid
+//@ pure
